@@ -180,9 +180,9 @@ def run(ctx):
                         continue
                     for entry in ("step", "map"):
                         jobs.append((ctx.repo, D, order, dyn, const, past, n, entry))
-    results = ctx.pmap(worker, jobs)
+    results = ctx.pairs(worker, jobs)
     by = {}
-    for job, r in zip(jobs, results):
+    for job, r in results:
         cfg = r["cfg"]
         nontriv = len(cfg["order"]) >= 2 or cfg["constants"] or cfg["steps"] >= 2
         ev.obligation("rollout", not r["problems"], tuple(str(v) for v in cfg.values()) if nontriv else None, sample=cfg if ev.obligations % 29 == 0 else None)
